@@ -126,7 +126,7 @@ func DecisionSignature(v string, w *ref.World, o, r string, reqctx *int) string 
 		return v + "/unevaluable-tuple-with-evaluable-sibling"
 	case v == "V4-spurious-failure" && UnevaluableUnreached(w, o, r, reqctx):
 		return v + "/unevaluable-condition-on-unreached-tuple"
-	case v != "V4-spurious-failure" && SameObjectRowMasked(w, reqctx):
+	case SameObjectRowMasked(w, reqctx):
 		return v + "/row-of-the-same-object-masked-before-filtering"
 	}
 	return v
